@@ -293,6 +293,46 @@ def w_twovol(order: int, cmd: int, link: int) -> str:
     return _twovol(rt.sel(order, 2), rt.sel(cmd, 7), rt.sel(link, 2))
 
 
+BAD2 = ['nonsticky', 'link-sticky', 'link-nonsticky', 'setgid-nonsticky']
+
+
+def _twobad(ka, kb, third):
+    """several volumes whose .Trash is insecure (for the same or for different reasons): none of them is read, and
+    trash-list reports EACH skipped directory on stderr"""
+    with rt.untraced():
+        rt.begin(('several-insecure-volumes', BAD2[ka], BAD2[kb], third))
+        vols = ['/v', '/w'] + (['/u'] if third else [])
+        kinds = [BAD2[ka], BAD2[kb]] + ([BAD2[ka]] if third else [])
+        nodes = [W.d('/h')]
+        for vol, kd in zip(vols, kinds):
+            tn, real = K.top_state_nodes(vol, kd)
+            nodes += tn + [W.d(vol + '/d')]
+            nodes += K.trashed(real + '/1000', 'sec', 'd/secret', '2019-01-01T00:00:00', 'file', 2000)
+            nodes += K.trashed(vol + '/.Trash-1000', 'pub', 'd/public', '2019-01-03T00:00:00', 'file', 2100)
+        world = W.W(mounts=['/'] + vols, cwd='/', nodes=nodes)
+        m, res = scen.run_model(world, [C('list', [], scen.env(), cwd='/')])
+        r = res[0]
+        label = 'several-insecure-volumes:%s+%s%s' % (BAD2[ka], BAD2[kb], '+' + BAD2[ka] if third else '')
+        if r['exc']:
+            return rt.fail('C08:traceback:%s:%s' % (r['exc'].split(':')[0], label), r['exc'])
+        if 'secret' in r['out']:
+            return rt.fail('C08:insecure-dir-read:' + label, r['out'][-300:])
+        for vol in vols:
+            if vol + '/d/public' not in r['out']:
+                return rt.fail('C08:secure-dir-not-read:' + label, '%s/.Trash-1000 not listed: %r' % (vol, r['out'][-300:]))
+            if vol + '/.Trash/1000' not in r['err']:
+                return rt.fail('C08:no-skip-diagnostic:' + label, 'trash-list skipped %s/.Trash/1000 without saying so; stderr: %r' % (vol, r['err']))
+        return rt.ok()
+
+
+def w_twobad(ka: int, kb: int, third: bool) -> str:
+    """
+    pre: 0 <= ka < 4 and 0 <= kb < 4
+    post: _ == ''
+    """
+    return _twobad(rt.sel(ka, 4), rt.sel(kb, 4), rt.selb(third))
+
+
 class AdversaryHook(object):
     """another actor makes $topdir/.Trash insecure just before the k-th system call of the run"""
 
@@ -457,6 +497,8 @@ def obligations(tier):
            encodes=K.PUT_FUNCS + K.LIST_FUNCS + K.RESTORE_FUNCS + K.EMPTY_FUNCS + K.RM_FUNCS, stubs=K.STUBS,
            bounds='two volumes in one run, one with a valid sticky .Trash, the other with .Trash a symbolic link (absolute | relative) resolving to it; '
                   'either scanning order x 7 command/argument combinations'),
+        CH('W_several_insecure_volumes_each_reported', MOD, 'w_twobad', timeout=300, engine='W', regime='selector', encodes=K.LIST_FUNCS, stubs=K.STUBS,
+           bounds='2 or 3 volumes whose .Trash is insecure, 4 x 4 combinations of reasons: trash-list reads none of them and names each on stderr'),
         CH('W_purge_does_not_carry_a_verdict_across_trash_dirs', MOD, 'w_stale', timeout=1200, partitions=[(a, c) for a in range(2) for c in range(4)], engine='W', regime='selector',
            encodes=K.EMPTY_FUNCS + K.RM_FUNCS + ['TrashDirsScanner.scan_trash_dirs (lazy)', 'Guard.ask_the_user'], stubs=K.STUBS + ['another actor changes /w/.Trash before system call k'],
            bounds='trash-empty / trash-empty 1 / trash-empty -f on a tty / trash-rm * over home, /v and /w (3 entries each); /w/.Trash turns insecure (sticky bit dropped | replaced by a symlink) before system call k, k in 0..399 (runs are shorter: checked)',
